@@ -33,7 +33,7 @@ func (c01) Plan(tier string) fw.Plan {
 		MinEvents:   []string{"builds_basic_any", "builds_basic_kind_proto", "builds_bindnode", "readout_events", "deepequal_calls", "copy_calls"},
 	}
 	if tier == "thorough" {
-		p.Batches, p.Cases, p.TimeoutSec = 64, 6000, 3300
+		p.Batches, p.Cases, p.TimeoutSec = 64, 3000, 3300
 	}
 	return p
 }
